@@ -69,6 +69,13 @@ impl LdapConn {
         Ok(LdapConn { ldap, rt })
     }
 
+    #[cfg(ldap3_verif)]
+    #[doc(hidden)]
+    /// Verification hook: wrap an existing runtime and handle.
+    pub fn verif_from_parts(rt: Runtime, ldap: Ldap) -> Self {
+        LdapConn { rt, ldap }
+    }
+
     /// See [`Ldap::with_search_options()`](struct.Ldap.html#method.with_search_options).
     pub fn with_search_options(&mut self, opts: SearchOptions) -> &mut Self {
         self.ldap.search_opts = Some(opts);
